@@ -73,9 +73,26 @@ def negzero(x):
     return -0.0 if x == 0 else x
 
 
+def noisy(rng, ulps=4):
+    """numeric type for ``lift``: floats carrying the rounding noise a computed value has (a few units in the last place;
+    a zero becomes 0.0 or +-1e-17 .. +-2.2e-16).  Every call draws afresh, so two copies of one vertex differ in their last
+    bits the way two faces of an intersection result hold them.  Far below the library's tolerance (1e-10): the object
+    denotes the same set for every comparison the library makes."""
+    def f(x):
+        x = float(x)
+        j = rng.randint(-ulps, ulps)
+        if x == 0.0:
+            return (0.0, 0.0, 1e-17, -1e-17, 2.2e-16, -2.2e-16, -0.0)[rng.randrange(7)] if j else 0.0
+        return x * (1.0 + j * 1.1102230246251565e-16)
+    f.noisy = True
+    return f
+
+
 def num(x, nt):
     if nt is float:
         return float(x)
+    if getattr(nt, "noisy", False):
+        return nt(x)
     if nt is negzero:
         return negzero(x)
     if nt is int:
